@@ -10,13 +10,13 @@ from . import solver_model as SM
 from .common import need_func, make_eq
 
 LEVEL = 'other'
-TECHNIQUE = 'abstract interpretation of the surface-condition builder (LAPACK call captured), of the boundary-condition table, and of both interface functions for all 16 (lower, upper) layer-kind combinations with free symbolic layer values; continuity of the combined solutions decided as polynomial identities; call wiring read from the solver by fragment interpretation'
+TECHNIQUE = 'abstract interpretation of the surface-condition builder (LAPACK call captured), of the boundary-condition table, and of both interface functions for all 16 (lower, upper) layer-kind combinations with free symbolic layer values; continuity of the combined solutions decided as polynomial identities; the boundary table taken from a prefix interpretation of cf_radial_solver; whole-function symbolic execution of cf_radial_solver on 2- and 3-layer stacks (integration, starting vectors, zgesv and heap abstracted by contract): assembled surface values, interface continuity and the recorded arguments of the interface calls; the 16 interface functions of the interpreted sibling solver compared branch by branch'
 LEVEL_TEXT = ('The solution returned is sum_i C_i y_i per layer. Decided for arbitrary layer solutions: (a) the linear system handed to zgesv is exactly "constrained components of the combination = requested values" '
               'for each layer kind and requested type; (b) the constants propagated downward and the starting values propagated upward make the combined solutions agree at every interface in every component '
               'defined on both sides, with zero shear on the solid side and the potential carried through static liquids, for all 16 pairwise cases (layer stacks are chains of these). Residuals of the LAPACK solve are not decided.')
 LEVEL_NOTE = ('Trusted: Cython-subset front-end, interpreter, complex algebra; LAPACK zgesv solves A x = b in place (column-major). Interface relations for static liquids follow Saito (1974) eqs. 20-21 as transcribed in this module.')
 EXPLANATION = ('R02.1 surface system per layer kind; R02.2 boundary-condition vectors per requested type; R02.3 upward map: block fully written, nothing outside; '
-               'R02.4 continuity identities downward x upward; R02.5 the gravities/densities handed to both interface functions are those of that interface and agree in both directions.')
+               'R02.4 continuity identities downward x upward; R02.5 the gravities/densities handed to both interface functions are those of that interface and agree in both directions (recorded arguments of the executed driver); R02.6 sibling solver: 16 interface functions, surface systems, boundary vectors; R02.7 on the executed driver the assembled surface values equal the requested condition for every type; R02.8 on the executed driver the assembled solutions are continuous across every interface of every layer sequence explored.')
 
 KINDS = [('solid', False), ('solid', True), ('liquid', False), ('liquid', True)]
 SLOT = {('solid', False): {'y1': 0, 'y2': 1, 'y3': 2, 'y4': 3, 'y5': 4, 'y6': 5}, ('solid', True): {'y1': 0, 'y2': 1, 'y3': 2, 'y4': 3, 'y5': 4, 'y6': 5},
